@@ -1,7 +1,8 @@
 """Shared by C14 and C15: the case format, the driver + observer on the real simulators, the independent
 oracle (the two property statements over the implementation's own trace), the Gallina printer.
 
-case = {"cls": "ABM"|"DEVS", "script": [[tick, [act...]], ...], "fuel": n, "ops": [op...]}
+case = {"cls": "ABM"|"DEVS", "script": [[tick, [act...]], ...], "fuel": n, "ops": [op...], "setup": bool (default true;
+        false = simulator.setup(model) is never called: run calls must raise and change nothing)}
 times are integers counting 1/8 (S = 8); `fl` says whether the Python value handed to the simulator is a
 float (t/8) or an int (t//8, only when 8 | t).
 op  = ["sched", kind, t, fl, prio, tag, holder, body] | ["cancel", tag] | ["drop", holder]
@@ -26,6 +27,7 @@ HEAP_TIE = os.environ.get("VERIF_HEAPQ_TIE") == "1"
 S = 8
 R_OK, R_PAST, R_UNIT, R_SKIP = 0, 1, 2, 5
 E_EMPTY = 3
+E_NOSETUP = 4
 PVAL = {"L": 10, "D": 5, "H": 1}
 PNAME = {"L": "PLow", "D": "PDefault", "H": "PHigh"}
 KNAME = {"now": "KNow", "rel": "KRel", "abs": "KAbs", "tick": "KTick"}
@@ -93,7 +95,9 @@ class _Env:
         self.make_fn = make_fn
         self.sim = ABMSimulator() if self.abm else DEVSimulator()
         self.model = M()
-        self.sim.setup(self.model)
+        self.is_setup = bool(case.get("setup", True))
+        if self.is_setup:
+            self.sim.setup(self.model)
 
     # -- user code
     def run_acts(self, body):
@@ -200,8 +204,12 @@ class _Env:
                     self.sim.run_next_event()
                 ob = [0] + self.view(self.log)
             except Exception as e:  # noqa: BLE001
-                info["exc"] = f"{type(e).__name__}: {e}"
-                ob = [-1, 99]
+                if not self.is_setup and "has not been setup" in str(e):
+                    info["nosetup"] = True
+                    ob = [-1, E_NOSETUP]
+                else:
+                    info["exc"] = f"{type(e).__name__}: {e}"
+                    ob = [-1, 99]
         elif k == "peek":
             try:
                 pk = self.sim.event_list.peak_ahead(op[1])
@@ -236,13 +244,13 @@ class _Shadow:
     """What the history scheduled, from the calls and their observed outcomes - not a simulator: it never
     decides which event runs, it only checks the events the implementation says it ran."""
 
-    def __init__(self, abm):
+    def __init__(self, abm, is_setup=True):
         self.abm = abm
         self.pend = []          # dicts: tag time prio seq seq2 holder cancelled step body
         self.seq = 0
         self.dead = set()
         self.nsteps = 0
-        if abm:
+        if abm and is_setup:
             self.add_step(S)
 
     def nseq(self):
@@ -275,7 +283,8 @@ def oracle(case, recs):
     """recs = [(obs, info)] per op.  Returns the failures of the first op that violates a statement."""
     cls = CLS[case["cls"]]
     abm = case["cls"] == "ABM"
-    sh = _Shadow(abm)
+    is_setup = bool(case.get("setup", True))
+    sh = _Shadow(abm, is_setup)
     fails = []
     script = {int(k): v for k, v in case.get("script", [])}
     judged_clock = True     # False once a run went outside the quantifier (horizon before now)
@@ -355,6 +364,13 @@ def oracle(case, recs):
                     e["cancelled"] = True
         elif k == "drop":
             sh.dead.add(op[1])
+        elif k in ("until", "for", "next") and not is_setup:
+            if not info.get("nosetup"):
+                fail(f"C14/{cls}/{k}/ran-without-setup", i, f"{op} did not raise although setup(model) was never called")
+                break
+            if after != before:
+                fail(f"C14/{cls}/{k}/raised-but-changed-state", i, f"{op} raised 'not setup' but changed the simulator: {before} -> {after}")
+                break
         elif k in ("until", "for", "next"):
             now0 = before[0]
             horizon = None
@@ -544,6 +560,8 @@ def chunk_oracle(case, recs):
     cls = CLS[case["cls"]]
     abm = case["cls"] == "ABM"
     ops = case["ops"]
+    if not case.get("setup", True):
+        return []
     merged = []
     groups = []         # (index in merged, [indices in ops])
     i = 0
@@ -639,7 +657,8 @@ def coq_op(op):
 def coq_case(case):
     script = L.lst([L.pair(L.z(k), L.lst([coq_act(a) for a in acts])) for k, acts in case.get("script", [])])
     cfg = f"{{| c_abm := {L.b(case['cls'] == 'ABM')}; c_script := {script} |}}"
-    return f"{{| c_cfg := {cfg}; c_fuel := {int(case.get('fuel', 300))}%nat; c_ops := {L.lst([coq_op(o) for o in case['ops']])} |}}"
+    return (f"{{| c_cfg := {cfg}; c_setup := {L.b(case.get('setup', True))}; c_fuel := {int(case.get('fuel', 300))}%nat; "
+            f"c_ops := {L.lst([coq_op(o) for o in case['ops']])} |}}")
 
 
 def op_kinds(case):
